@@ -3,6 +3,7 @@ mod chain;
 mod engine;
 mod factory;
 mod ledgercheck;
+mod observe;
 mod props;
 mod refmodel;
 mod report;
